@@ -233,6 +233,11 @@ func clientSingles(e SeedEnv, s clientSeed) []Case {
 	if err != nil {
 		panic(err)
 	}
+	if s.Kind == "connect" && s.Channel != "" {
+		for _, v := range chanDevMenu {
+			with(Dev{"chan", "channel", v})
+		}
+	}
 	if s.Kind == "subscribe" || s.Kind == "unsubscribe" || s.Kind == "publish" {
 		for _, v := range chanDevMenu {
 			with(Dev{"chan", "channel", v})
@@ -296,7 +301,7 @@ func clientSingles(e SeedEnv, s clientSeed) []Case {
 var chanDevMenu = []string{
 	// malformed option lists (the option parser runs before authorization)
 	"a/b/?x", "a/b/?x=", "a/b/?=1", "a/b/?x=1&", "a/b/?x=1&y", "a/b/?last=1&x", "a/b/?x=1&&y=2", "a/b/?x=1=2", "a/b/?&", "a/b/?", "a/b/?x=1&y=", "rep:a/b/?x=1&*2000y",
-	"rep:a/*2", "rep:a/*24", "rep:a/*1000", "rep:a/*30000", "rep:+/*64", "rep:a*60000/", "#/", "+/", "a//", "a", "/", "a/#/b/", "$share/g/a/b/"}
+	"rep:a/*2", "rep:a/*22", "rep:a/*23", "rep:a/*24", "rep:a/*25", "rep:a/*63", "rep:a/*64", "rep:a/*65", "rep:a/*1000", "rep:a/*30000", "rep:+/*64", "rep:a*60000/", "#/", "+/", "a//", "a", "/", "a/#/b/", "$share/g/a/b/"}
 
 var sizeLimits = []int{1024, 65536}
 
